@@ -23,7 +23,7 @@ type misKnobs struct {
 	EntityID     string `json:"entity_id,omitempty"` // with entity_id_set: the configured entity ID ("" = urn:example:sp); plain names are entity IDs too
 	CustomAud    bool   `json:"custom_audience_validator"`
 	FaultyAud    bool   `json:"custom_audience_validator_panics_on_unknown_audience,omitempty"` // the application's validator faults (nil dereference) on audiences it does not know: whatever the library makes of that, the assertion was not approved
-	ReceivedAt   string `json:"received_at"`                                                    // "acs" | "acs-query" | "relative" (path-only request URL, as behind a real net/http server)
+	ReceivedAt   string `json:"received_at"`                                                    // "acs" | "acs-query" | "relative" (path-only request URL, as behind a real net/http server) | "unknown" (the caller does not know, or does not say, where the response was received: the zero url.URL)
 	AllowIDP     bool   `json:"allow_idp_initiated"`
 	Fingerprint  bool   `json:"idp_known_by_certificate_fingerprint,omitempty"` // no certificate in the IdP metadata: the SP is configured with the fingerprint of the IdP's certificate
 	Rebase       bool   `json:"metadata_url_changes_after_first_use"`           // entity ID unset: after the first delivery the application changes MetadataURL (a per-tenant clone of a template SP); the audience follows
@@ -48,6 +48,9 @@ type misStep struct {
 	// user of another service provider: recipient, audience and subject are that provider's. Whether a response with such a
 	// companion is accepted at all is open; the assertion handed to the application must be the one meant for this SP.
 	Decoy string `json:"companion_assertion_for_another_sp,omitempty"`
+	// Unsolicited: the IdP sends the response of its own accord (IdP-initiated sign-on): neither the Response nor the confirmations
+	// carry InResponseTo. Whom the message is for is said by the same fields as ever; generated for SPs that allow it.
+	Unsolicited bool `json:"unsolicited,omitempty"`
 	// NoAssertion: the response carries no assertion at all
 	NoAssertion bool `json:"no_assertion,omitempty"`
 	// RespSigNoCert: the certificate is dropped in flight from the KeyInfo of the Response's own signature (KeyInfo is not signed
@@ -101,7 +104,7 @@ func variant(g *Rng, correct string, ws [4]int) (string, string) {
 }
 
 func genMisroute(g *Rng, tier string) *Plan {
-	k := misKnobs{EntityIDSet: g.Bool(0.5), CustomAud: g.Bool(0.2), ReceivedAt: Pick(g, "acs", "acs", "acs-query", "relative"), AllowIDP: g.Bool(0.2), Rebase: g.Bool(0.15),
+	k := misKnobs{EntityIDSet: g.Bool(0.5), CustomAud: g.Bool(0.2), ReceivedAt: Pick(g, "acs", "acs", "acs-query", "relative", "unknown"), AllowIDP: g.Bool(0.2), Rebase: g.Bool(0.15),
 		MaxIssueMs: Pick(g, int64(7000), 90_000), MaxClockSkew: Pick(g, int64(1000), 180_000)}
 	k.FaultyAud = k.CustomAud && g.Bool(0.4)
 	k.ReqIDHook = g.Bool(0.2)
@@ -127,6 +130,9 @@ func genMisroute(g *Rng, tier string) *Plan {
 			myAud = misMetadata2 // from the second delivery on the SP's metadata URL (hence its audience) is another one
 		}
 		st := misStep{Kind: "deliver", Entry: Pick(g, "xml", "xml", "post", "artifact"), Labels: map[string]string{}}
+		if k.ReceivedAt == "unknown" && st.Entry == "post" {
+			st.Entry = "xml" // a caller that hands over an *http.Request always says where it was received
+		}
 		clean := g.Bool(0.12) // everything correct: the sufficient direction
 		w := func(ws ...int) [4]int {
 			if clean {
@@ -141,6 +147,11 @@ func genMisroute(g *Rng, tier string) *Plan {
 			return g.PickW(a[:]...)
 		}
 		spec := RespSpec{ID: fmt.Sprintf("id-resp-%d", i), InResponseTo: "id-req", TimeForm: 0}
+		irt := "id-req"
+		if k.AllowIDP && g.Bool(0.5) {
+			st.Unsolicited, spec.InResponseTo, irt = true, "", ""
+			st.Labels["in-response-to"] = "none"
+		}
 		// Response issuer
 		switch {
 		case !clean && g.Bool(0.12):
@@ -189,6 +200,11 @@ func genMisroute(g *Rng, tier string) *Plan {
 		}
 		layout := g.Intn(3)
 		spec.Sign = layout != 1
+		if clean && !spec.Sign && g.Bool(0.35) {
+			// a Response that carries no signature of its own need not say where it goes: absent is a correct value there
+			spec.Destination = ""
+			st.Labels["destination"] = "absent"
+		}
 		a := AsrtSpec{ID: fmt.Sprintf("id-as-%d", i), NameID: marker("nid", i), NotBefore: i64(-1000), NotOnOrAfter: i64(600_000), Sign: layout != 0, SessionIndex: "si"}
 		a.Issuer, st.Labels["as-issuer"] = variant(g, idpEntity, w(14, 2, 2, 1))
 		if st.Labels["as-issuer"] != "correct" && g.Bool(0.4) {
@@ -204,7 +220,7 @@ func genMisroute(g *Rng, tier string) *Plan {
 			if l != "correct" && g.Bool(0.4) {
 				noa = -3_600_000 // a confirmation for somebody else that has moreover lapsed: still a confirmation of this assertion
 			}
-			a.Confs = append(a.Confs, ConfSpec{NotOnOrAfter: i64(noa), Recipient: r, InResponseTo: "id-req",
+			a.Confs = append(a.Confs, ConfSpec{NotOnOrAfter: i64(noa), Recipient: r, InResponseTo: irt,
 				Method: Pick(g, "", "", "", "urn:oasis:names:tc:SAML:2.0:cm:holder-of-key", "urn:oasis:names:tc:SAML:2.0:cm:sender-vouches")})
 			st.Labels[fmt.Sprintf("recipient%d", q)] = l
 		}
@@ -236,6 +252,51 @@ func genMisroute(g *Rng, tier string) *Plan {
 			a.EmptyRestrictions = 1 + g.Intn(2)
 			st.Labels["audience-restriction-without-audience"] = "empty"
 		}
+		if g.Bool(0.08) {
+			// restrictions that list several audiences (an OR): this SP first / in the middle / last / not among them
+			others := []string{"https://other-sp.example.net/saml/metadata", "urn:example:other", "https://sp2.example.com/saml/metadata", misACS, nearMiss(g, myAud)}
+			ng := 1 + g.PickW(4, 1)
+			for q := 0; q < ng; q++ {
+				pos := Pick(g, "first", "middle", "last", "absent")
+				if clean && pos == "absent" {
+					pos = Pick(g, "first", "middle", "last")
+				}
+				size := 2 + g.Intn(2)
+				if pos == "middle" {
+					size = 3
+				}
+				grp := make([]string, size)
+				for x := range grp {
+					grp[x] = others[g.Intn(len(others))]
+					if grp[x] == myAud {
+						grp[x] = "urn:example:third"
+					}
+				}
+				switch pos {
+				case "first":
+					grp[0] = myAud
+				case "middle":
+					grp[1] = myAud
+				case "last":
+					grp[size-1] = myAud
+				}
+				a.AudienceGroups = append(a.AudienceGroups, grp)
+				st.Labels[fmt.Sprintf("audience-group%d", q)] = map[bool]string{true: "wrong", false: "correct"}[pos == "absent"]
+			}
+		}
+		if g.Bool(0.12) {
+			// a ProxyRestriction: whom the SP may in turn issue assertions to; says nothing about whom this one is for
+			pr := &ProxySpec{}
+			if c := g.Intn(4); c > 0 {
+				c--
+				pr.Count = &c
+			}
+			for q, n := 0, g.PickW(1, 3, 2); q < n; q++ {
+				pr.Audiences = append(pr.Audiences, Pick(g, myAud, myAud, "https://downstream.example.net/sp", "https://other-sp.example.net/saml/metadata", misACS))
+			}
+			a.Proxy = pr
+			st.Labels["proxy-restriction"] = "correct" // informational: it changes nothing
+		}
 		if g.Bool(0.15) {
 			a.Encrypt, a.EncryptTo, a.Sign = true, 1, true
 		}
@@ -257,7 +318,11 @@ func genMisroute(g *Rng, tier string) *Plan {
 				{On: "StatusCode", Prefix: "Value", Value: saml.StatusSuccess}}, Pick(g, "", "xml", "xsi"))
 			st.Labels["foreign-ns-attributes"] = "correct"
 		}
-		if spec.Sign && a.Sign && !a.Encrypt && g.Bool(0.15) {
+		noCertP := 0.15
+		if k.Fingerprint {
+			noCertP = 0.5 // where the certificate in the signature is all that ties it to the configured fingerprint, its absence matters most
+		}
+		if spec.Sign && a.Sign && !a.Encrypt && g.Bool(noCertP) {
 			st.RespSigNoCert = true
 		}
 		spec.Assertions = []AsrtSpec{a}
@@ -350,8 +415,16 @@ func execMisroute(t *testing.T, p *Plan) *Result {
 		recvAt = mustURL(misACS + "?tenant=1")
 	case "relative":
 		recvAt = mustURL("/saml/acs")
+	case "unknown":
+		recvAt = url.URL{} // the caller leaves it empty
+		res.probe("config:received-at-url-unknown-to-caller")
 	}
+	recvKnown := k.ReceivedAt != "unknown"
 	spv.AllowIDPInitiated = k.AllowIDP
+	reqIDs := []string{"id-req"}
+	if k.AllowIDP {
+		reqIDs = []string{"", "id-req"} // the way samlsp.Middleware calls it when IdP-initiated sign-on is allowed
+	}
 	if k.ReqIDHook {
 		// the application matches responses to requests itself, the way the library does by default
 		res.probe("config:custom-request-id-validator")
@@ -381,27 +454,30 @@ func execMisroute(t *testing.T, p *Plan) *Result {
 			res.fire("sp-metadata-url-changed")
 		}
 		t0 := time.Now()
-		respEl := BuildResponseEl(&st.Spec, t0)
-		if st.RespSigNoCert {
-			for _, c := range respEl.ChildElements() {
-				if c.Tag == "Signature" {
-					if ki := c.FindElement("./KeyInfo"); ki != nil {
-						c.RemoveChild(ki)
+		build := func(spec *RespSpec) []byte {
+			respEl := BuildResponseEl(spec, t0)
+			if st.RespSigNoCert {
+				for _, c := range respEl.ChildElements() {
+					if c.Tag == "Signature" {
+						if ki := c.FindElement("./KeyInfo"); ki != nil {
+							c.RemoveChild(ki)
+						}
 					}
 				}
 			}
+			if st.Entry == "artifact" {
+				var signer *KeyPair
+				if st.ArtSigned {
+					signer = &rsaKeys[0]
+				}
+				return wrapArtifactResponse(respEl, "id-art", "id-resolve", st.ArtIssuer, st.ArtStatus, t0, signer)
+			}
+			return elBytes(respEl)
+		}
+		if st.RespSigNoCert {
 			res.probe("response-signature-without-certificate")
 		}
-		var body []byte
-		if st.Entry == "artifact" {
-			var signer *KeyPair
-			if st.ArtSigned {
-				signer = &rsaKeys[0]
-			}
-			body = wrapArtifactResponse(respEl, "id-art", "id-resolve", st.ArtIssuer, st.ArtStatus, t0, signer)
-		} else {
-			body = elBytes(respEl)
-		}
+		body := build(&st.Spec)
 		advance(50 * time.Millisecond)
 		a := AsrtSpec{Issuer: idpEntity} // no assertion: nothing of an assertion can be wrong
 		if !st.NoAssertion {
@@ -426,27 +502,59 @@ func execMisroute(t *testing.T, p *Plan) *Result {
 				break
 			}
 		}
-		if len(a.Audiences) > 0 {
-			okc := 0
-			for _, au := range a.Audiences {
+		// the restrictions that list somebody: one per entry of Audiences, and those with several audiences, each of which is satisfied
+		// when ANY of its audiences is this SP
+		var restrictions [][]string
+		for _, au := range a.Audiences {
+			restrictions = append(restrictions, []string{au})
+		}
+		restrictions = append(restrictions, a.AudienceGroups...)
+		okc := 0
+		for _, r := range restrictions {
+			for _, au := range r {
 				if au == myAud {
 					okc++
+					break
 				}
 			}
+		}
+		for _, grp := range a.AudienceGroups {
+			pos := "absent"
+			for x, au := range grp {
+				if au == myAud {
+					pos = map[bool]string{true: "first", false: "middle"}[x == 0]
+					if x == len(grp)-1 {
+						pos = "last"
+					}
+					break
+				}
+			}
+			res.probe("several-audiences-in-one-restriction:this-sp-" + pos)
+		}
+		if len(restrictions) > 0 {
 			switch {
 			case okc == 0:
 				bad = append(bad, "audience")
-			case okc < len(a.Audiences) && !k.CustomAud:
+			case okc < len(restrictions) && !k.CustomAud:
 				dc = true // several restrictions of which only some name the SP (DESIGN §7)
 			}
 		} else if k.CustomAud && !st.NoAssertion {
 			bad = append(bad, "audience") // this application's validator demands its audience
 		}
-		if a.EmptyRestrictions > 0 {
-			named := false
-			for _, au := range a.Audiences {
-				named = named || au == myAud
+		if a.Proxy != nil {
+			// whom the SP may issue assertions to in turn: no part of whom this assertion is for
+			names := "nobody"
+			for _, au := range a.Proxy.Audiences {
+				if au == myAud {
+					names = "this-sp"
+					break
+				}
+				names = "others"
 			}
+			res.probe("proxy-restriction:names-" + names)
+		}
+		if a.EmptyRestrictions > 0 {
+			named := okc > 0
 			switch {
 			case k.CustomAud:
 				dc = true // what the application's validator makes of it is the application's
@@ -476,8 +584,14 @@ func execMisroute(t *testing.T, p *Plan) *Result {
 			} else if st.Spec.Sign && !browser {
 				dc = true // not delivered through the browser: the statement does not make Destination mandatory
 			}
-		case st.Spec.Destination != misACS && st.Spec.Destination != recvAt.String():
-			bad = append(bad, "destination")
+		case st.Spec.Destination != misACS && (!recvKnown || st.Spec.Destination != recvAt.String()):
+			bad = append(bad, "destination") // neither the ACS URL nor (where the caller says it) the URL the response was received at
+		}
+		if st.Spec.InResponseTo == "" {
+			res.probe("unsolicited-response")
+			if !k.AllowIDP {
+				dc = true // whether an answer to no request is taken at all is not this property's to say
+			}
 		}
 		if st.RespSigNoCert && k.Fingerprint {
 			dc = true // a signature naming no certificate cannot be matched to a fingerprint: whether such a response gets in on its assertion's signature is open
@@ -490,22 +604,31 @@ func execMisroute(t *testing.T, p *Plan) *Result {
 			expect = "DONT_CARE"
 		}
 
-		var as *saml.Assertion
-		var err error
-		pan := guard(func() {
-			switch st.Entry {
-			case "xml":
-				as, err = spv.ParseXMLResponse(body, []string{"id-req"}, recvAt)
-			case "post":
-				form := url.Values{"SAMLResponse": {base64.StdEncoding.EncodeToString(body)}}
-				r := httptest.NewRequest("POST", recvAt.String(), strings.NewReader(form.Encode()))
-				r.Header.Set("Content-Type", formCT)
-				_ = r.ParseForm()
-				as, err = spv.ParseResponse(r, []string{"id-req"})
-			case "artifact":
-				as, err = spv.ParseXMLArtifactResponse(body, []string{"id-req"}, "id-resolve", recvAt)
-			}
-		})
+		deliver := func(body []byte) (as *saml.Assertion, pan any, err error) {
+			pan = guard(func() {
+				switch st.Entry {
+				case "xml":
+					as, err = spv.ParseXMLResponse(body, reqIDs, recvAt)
+				case "post":
+					form := url.Values{"SAMLResponse": {base64.StdEncoding.EncodeToString(body)}}
+					target := recvAt.String()
+					if !recvKnown {
+						target = misACS
+					}
+					r := httptest.NewRequest("POST", target, strings.NewReader(form.Encode()))
+					if !recvKnown {
+						r.URL = &url.URL{}
+					}
+					r.Header.Set("Content-Type", formCT)
+					_ = r.ParseForm()
+					as, err = spv.ParseResponse(r, reqIDs)
+				case "artifact":
+					as, err = spv.ParseXMLArtifactResponse(body, reqIDs, "id-resolve", recvAt)
+				}
+			})
+			return
+		}
+		as, pan, err := deliver(body)
 		observed := "REJECT"
 		if pan != nil {
 			observed = "PANIC"
@@ -545,6 +668,32 @@ func execMisroute(t *testing.T, p *Plan) *Result {
 		case "DONT_CARE":
 			res.dontcare("open-region")
 		case "ACCEPT":
+			if as == nil && len(a.AudienceGroups) > 0 {
+				// is it the several audiences in one restriction, and nothing else, that the refusal turns on? The same message with
+				// every such restriction cut down to one audience (this SP where it is among them) says the same about whom it is for.
+				alt := decode[RespSpec](mustJSON(st.Spec))
+				for x := range alt.Assertions {
+					if alt.Assertions[x].ID != a.ID {
+						continue
+					}
+					for _, grp := range alt.Assertions[x].AudienceGroups {
+						one := grp[0]
+						for _, au := range grp {
+							if au == myAud {
+								one = au
+							}
+						}
+						alt.Assertions[x].Audiences = append(alt.Assertions[x].Audiences, one)
+					}
+					alt.Assertions[x].AudienceGroups = nil
+				}
+				as2, pan2, _ := deliver(build(&alt))
+				res.logf("step %d the same with one audience per restriction: accepted=%v", si, as2 != nil && pan2 == nil)
+				if as2 != nil && pan2 == nil {
+					res.violate(si, "rejected-valid", "C03/rejected-valid/several-audiences-in-one-restriction", expect, observed, privErr(err))
+					return res
+				}
+			}
 			if as == nil {
 				res.violate(si, "rejected-correctly-addressed", "C03/rejected-correctly-addressed/"+st.Entry, expect, observed, privErr(err))
 				return res
@@ -638,6 +787,32 @@ func simplifyMisroute(p *Plan) []*Plan {
 				out = append(out, c)
 			}
 		}
+		for q, grp := range a.AudienceGroups {
+			// without the restriction, then with the restriction one audience shorter
+			c := p.Clone()
+			s2 := decode[misStep](raw)
+			gs := s2.Spec.Assertions[0].AudienceGroups
+			s2.Spec.Assertions[0].AudienceGroups = append(append([][]string{}, gs[:q]...), gs[q+1:]...)
+			c.Steps[i] = mustJSON(s2)
+			out = append(out, c)
+			if len(grp) > 2 {
+				for x := range grp {
+					c := p.Clone()
+					s2 := decode[misStep](raw)
+					g2 := s2.Spec.Assertions[0].AudienceGroups[q]
+					s2.Spec.Assertions[0].AudienceGroups[q] = append(append([]string{}, g2[:x]...), g2[x+1:]...)
+					c.Steps[i] = mustJSON(s2)
+					out = append(out, c)
+				}
+			}
+		}
+		if a.Proxy != nil {
+			c := p.Clone()
+			s2 := decode[misStep](raw)
+			s2.Spec.Assertions[0].Proxy = nil
+			c.Steps[i] = mustJSON(s2)
+			out = append(out, c)
+		}
 	}
 	return out
 }
@@ -645,10 +820,10 @@ func simplifyMisroute(p *Plan) []*Plan {
 func init() {
 	register(&Profile{
 		ID: "C03", Name: "misroute", Level: "exploration",
-		Rule: "each run: 1-3 deliveries of a validly signed foreign-IdP response to an SP (entity ID set/unset, custom audience validator on/off, received-at URL equal to the ACS URL or carrying an extra query, xml/post/artifact entry, 3 signing layouts, plaintext/encrypted) in which Response Issuer, Assertion Issuer, each of 1-2 Recipients, each of 0-3 audiences, Destination, StatusCode (and ArtifactResponse issuer/status) are independently correct / near-miss (trailing slash, suffix, truncation, query, case, look-alike host, fragment, trailing space) / wrong / empty / absent — i.e. the message was minted for another party with a confusable name; one step in eight is fully correct; non-trivial = at least one field deviates; distinct = distinct abstract log; knobs also include AllowIDPInitiated and a path-only received-at URL; near-miss destinations include a foreign authority with the same path",
+		Rule: "each run: 1-3 deliveries of a validly signed foreign-IdP response to an SP (entity ID set/unset, custom audience validator on/off, received-at URL equal to the ACS URL or carrying an extra query, xml/post/artifact entry, 3 signing layouts, plaintext/encrypted) in which Response Issuer, Assertion Issuer, each of 1-2 Recipients, each of 0-3 audiences, Destination, StatusCode (and ArtifactResponse issuer/status) are independently correct / near-miss (trailing slash, suffix, truncation, query, case, look-alike host, fragment, trailing space) / wrong / empty / absent — i.e. the message was minted for another party with a confusable name; one step in eight is fully correct; non-trivial = at least one field deviates; distinct = distinct abstract log; knobs also include AllowIDPInitiated and a path-only received-at URL; near-miss destinations include a foreign authority with the same path; one run in five the caller does not say where the response was received (zero url.URL), and SPs that allow IdP-initiated sign-on get unsolicited responses (no InResponseTo anywhere) half the time; an unsigned Response of a fully correct step may leave Destination out; 8% of the assertions carry 1-2 further AudienceRestrictions listing 2-3 audiences each (this SP first / in the middle / last / not among them), 12% a ProxyRestriction (Count absent/0-2, 0-2 audiences that may name this SP), which decides nothing",
 		Gen:  genMisroute, Exec: execMisroute, Simplify: simplifyMisroute,
 		RunsQuick: 6000, RunsThorough: 600000,
-		Assumptions: []string{"near-miss strings come from a constructed population, not from all strings", "several AudienceRestrictions of which only some name the SP, and a missing Destination on a signed Response that did not travel through the browser (artifact), are declared don't-care", "with a custom audience validator the validator's verdict is the oracle for audiences"},
+		Assumptions: []string{"near-miss strings come from a constructed population, not from all strings", "several AudienceRestrictions of which only some name the SP, and a missing Destination on a signed Response that did not travel through the browser (artifact), are declared don't-care", "with a custom audience validator the validator's verdict is the oracle for audiences", "a restriction listing several audiences is satisfied when any of them is this SP; a refusal that goes away when each such restriction is cut down to one audience is reported under its own signature (several-audiences-in-one-restriction)", "an unsolicited response at an SP that does not allow IdP-initiated sign-on is don't-care here (C04)"},
 		Components: map[string][]string{
 			"real": {"saml.ServiceProvider.ParseXMLResponse/ParseResponse/ParseXMLArtifactResponse", "goxmldsig", "xmlenc", "etree"},
 			"stub": {"foreign IdP tenants sharing one key", "mis-delivering network"},
